@@ -744,11 +744,11 @@ impl Check for PrivilegeMatrix {
         "privilege_matrix"
     }
     fn rule(&self) -> &'static str {
-        "hand-written table of every ExecuteMsg variant of 14 contracts (pool factory, pair, trio, router, frontend helper, incentive factory, incentive, vault factory, vault, vault router, fee collector, fee distributor, whale lair, epoch manager), verified at start-up against the variant names derived from the message schemas; every privileged / internal variant x twelve caller roles (configured owner, hub owner account, prospective new owner, user, sibling contract, the contract itself, pool factory, vault factory, fee distributor, a registered vault, the fee collector's configured take-rate recipient, the creator of an incentive flow) x {before, after an ownership transfer} is enumerated exhaustively as the regression corpus with the canonical payload and with payloads that name the caller itself / an unregistered asset where a message carries the identity it is checked against (vault-router NextLoan source_vault + asset, CompleteLoan initiator), and random payload details are drawn on top; unauthorised attempts also come with reshaped payloads (any subset of the message's optional fields left out, down to the empty update, and the owner field naming the caller). Oracle: a caller outside the authorised set => rejected and full world snapshot unchanged; the authorised caller with the canonical payload => accepted (except migrations, whose payload is refused for version reasons); after a transfer the previous owner is rejected and the new owner accepted; AssertMinimumReceive is effect-free for every caller. Non-trivial: an unauthorised role was exercised; distinct by (variant, role, transfer, payload)."
+        "hand-written table of every ExecuteMsg variant of 14 contracts (pool factory, pair, trio, router, frontend helper, incentive factory, incentive, vault factory, vault, vault router, fee collector, fee distributor, whale lair, epoch manager), verified at start-up against the variant names derived from the message schemas; every privileged / internal variant x seventeen caller roles (configured owner, hub owner account, prospective new owner, user, sibling contract, the contract itself, pool factory, vault factory, fee distributor, a registered vault, the fee collector's configured take-rate recipient, the creator of an incentive flow, the bonding contract, the pool router, the vault router, the incentive factory, an incentive contract) x {before, after an ownership transfer} is enumerated exhaustively as the regression corpus with the canonical payload and with payloads that name the caller itself / an unregistered asset where a message carries the identity it is checked against (vault-router NextLoan source_vault + asset, CompleteLoan initiator), and random payload details are drawn on top; unauthorised attempts also come with reshaped payloads (any subset of the message's optional fields left out, down to the empty update, and the owner field naming the caller). Oracle: a caller outside the authorised set => rejected and full world snapshot unchanged; the authorised caller with the canonical payload => accepted (except migrations, whose payload is refused for version reasons); after a transfer the previous owner is rejected and the new owner accepted; AssertMinimumReceive is effect-free for every caller. Non-trivial: an unauthorised role was exercised; distinct by (variant, role, transfer, payload)."
     }
     fn strategy(&self, _tier: Tier) -> BoxedStrategy<Case> {
         let n = privileged_entries().len() as u16;
-        (0..n, 0u8..12, any::<bool>(), any::<u64>())
+        (0..n, 0u8..17, any::<bool>(), any::<u64>())
             .prop_map(|(i, role, after_transfer, payload)| Case {
                 entry: privileged_entries()[i as usize] as u16,
                 role,
@@ -763,7 +763,7 @@ impl Check for PrivilegeMatrix {
     fn corpus(&self) -> Vec<Case> {
         let mut out = vec![];
         for i in privileged_entries() {
-            for role in 0..12u8 {
+            for role in 0..17u8 {
                 for after_transfer in [false, true] {
                     // canonical payload, and the payload that names the caller itself together
                     // with an unregistered asset wherever the message carries such fields
@@ -813,7 +813,14 @@ impl Check for PrivilegeMatrix {
             9 => ev.vault.clone(),
             // addresses the configuration names in a role other than the owner's
             10 => Addr::unchecked("dao"),
-            _ => ev.flow_creator.clone(),
+            11 => ev.flow_creator.clone(),
+            // contracts that other contracts' configurations name (bonding contract, routers, the
+            // incentive factory, an incentive contract)
+            12 => ev.addr(Target::Lair),
+            13 => ev.addr(Target::Router),
+            14 => ev.addr(Target::VaultRouter),
+            15 => ev.addr(Target::IncFactory),
+            _ => ev.addr(Target::Incentive),
         };
         // epoch manager remove_hook needs a hook to remove: add one as the current admin
         let payload = if e.target == Target::EpochManager && e.variant == "remove_hook" {
